@@ -41,6 +41,8 @@ def run(check: Check):
   from fjsa.props import c08
   for ci in c08.federated_impls(repo):
     c08.shuffled_stream(check, ci, 'R-STREAM.seeded')
+  # ... and only if the stream's pass order is fixed (sorted ids, not hash order of a set)
+  c08.sorted_ids_rule(check, 'R-STREAM.sorted')
   ka = KeyAnalysis(repo)
   for ci in (get, shf):
     check_function(check, ka, ci.method('sample'), 'R-KEY', step_like=False)
